@@ -2472,7 +2472,7 @@ class SeriesAssign(Assign):
 
         if value.__class__ is np.ndarray:
             value_dtype = value.dtype
-        elif hasattr(value, '__len__') and not isinstance(value, str):
+        elif hasattr(value, '__len__') and not isinstance(value, (str, bytes)):
             value, _ = iterable_to_array_1d(value)
             value_dtype = value.dtype
         else:
